@@ -2,6 +2,7 @@ import Dashu.Props.C13
 import Dashu.Proofs.NT.ModLargeK
 import Dashu.Proofs.NT.ModInvm
 import Dashu.Proofs.NT.ModPowK
+import Dashu.Proofs.NT.ModAddK
 import Dashu.Model.NT.ModAllK
 import Dashu.Gen.ModularBuf
 /-
@@ -70,6 +71,74 @@ example : ∃ r, Ring.new 64 0 (2 ^ 188 + 12345) = .ok r ∧ r.kind = .large ∧
     mulNormalizedWordsL 64 r true ((2 ^ 100 + 7) * 2 ^ 3) ((2 ^ 100 + 7) * 2 ^ 3)
       = .ok (((2 ^ 100 + 7) * (2 ^ 100 + 7) % (2 ^ 188 + 12345)) * 2 ^ 3) :=
   ⟨_, rfl, rfl, by decide, by decide +kernel, by decide +kernel, by decide +kernel⟩
+
+-- ================================================================== modular/add.rs on buffers (round 6; C13 ↔ C01 link)
+
+/-- **`negate_in_place` / `add_in_place` / `dbl_in_place` / `sub_in_place` / `sub_in_place_swap` on word buffers**
+    (`integer/src/modular/add.rs`; what the driver executes since round 6 for `Neg`, `+`, `dbl`, `-` and `&a - b` of
+    multi-word rings, and for the negation inside `IntoRing for IBig`): the `n`-word residue buffers go through C01's
+    mirrored `add_same_len_in_place` / `sub_same_len_in_place(_swap)`, C02's mirrored `shl_in_place(.., 1)` and
+    `cmp_same_len`, with `debug_assert!(!overflow)`, `debug_assert_eq!(overflow, overflow2)`, `debug_assert!(overflow2)`
+    as error values.  On `Valid` residues of a ring `ConstDivisor::new` builds no assertion fails and the buffers hold
+    exactly the values `Props.C13.hom_add / hom_sub / hom_neg / hom_dbl` are about (for every word size; the word
+    loops' contracts are C01's `addSameLen_spec` / `subSameLen_spec`, imported). -/
+theorem add_sub_neg_kernels_all (W id m : Nat) (hW : 0 < W) (r : Ring) (hnew : Ring.new W id m = .ok r)
+    (x y : Nat) (hx : Valid r x) (hy : Valid r y) :
+    addRawKL W r x y = addRaw r x y ∧ subRawKL W r x y = subRaw r x y ∧ subSwapRawKL W r x y = subRaw r x y ∧
+    negRawKL W r x = negRaw r x ∧ dblRawKL W r x = addRaw r x x := by
+  have hwf := Ring.new_wf hW hnew
+  have hn : r.kind = .large → 1 ≤ r.n := fun hk => by have := hwf.kind_n.2.2 hk; omega
+  have hlt : ∀ z, Valid r z → z < r.M := by
+    intro z ⟨v, hv, hz⟩
+    subst hz
+    exact Nat.mul_lt_mul_of_pos_right hv (Nat.two_pow_pos _)
+  exact ⟨addRawKL_eq hwf hn (hlt x hx) (hlt y hy), subRawKL_eq hwf hn (hlt x hx) (hlt y hy),
+    subSwapRawKL_eq hwf hn (hlt x hx) (hlt y hy), negRawKL_eq hwf hn (hlt x hx), dblRawKL_eq hwf hn (hlt x hx)⟩
+
+/-- the buffer-level operations themselves (any two `n`-word buffers below an `n`-word modulus, not only ring
+    residues): results as `Except`, i.e. "no `debug_assert` fails" is part of the statement -/
+theorem add_in_place_exact (W : Nat) (nd lhs rhs : List Nat) (hnd : IsWords W nd) (hl : IsWords W lhs) (hr : IsWords W rhs)
+    (hll : lhs.length = nd.length) (hrl : rhs.length = nd.length) (ha : val W lhs < val W nd) (hb : val W rhs < val W nd) :
+    (∃ out, addInPlaceL W nd lhs rhs = .ok out ∧ out.length = nd.length ∧
+      val W out = if val W lhs + val W rhs ≥ val W nd then val W lhs + val W rhs - val W nd else val W lhs + val W rhs) ∧
+    (∃ out, subInPlaceL W nd lhs rhs = .ok out ∧ out.length = nd.length ∧
+      val W out = if val W lhs ≥ val W rhs then val W lhs - val W rhs else val W nd - (val W rhs - val W lhs)) ∧
+    (∃ out, negateInPlaceL W nd lhs = .ok out ∧ out.length = nd.length ∧
+      val W out = if val W lhs = 0 then 0 else val W nd - val W lhs) := by
+  have hM := val_lt W nd hnd
+  refine ⟨?_, ?_, ?_⟩
+  · unfold addInPlaceL
+    have ⟨s1, s2, s3, s4⟩ := addSameLen_spec W lhs rhs 0 hl hr (by omega) (by omega)
+    generalize addSameLen W lhs rhs 0 = p at s1 s2 s3 s4
+    obtain ⟨l1, c⟩ := p
+    simp only at s1 s2 s3 s4 ⊢
+    rw [hll, Nat.add_zero] at s1
+    obtain ⟨out, ho, h1, _, hv⟩ := condSubL_spec (overflow := decide (c ≠ 0)) hnd s3 (by omega) s4 rfl hM (by omega)
+    exact ⟨out, ho, h1, by rw [hv, s1]⟩
+  · unfold subInPlaceL
+    have ⟨s1, s2, s3, s4⟩ := subSameLen_spec W lhs rhs 0 hl hr (by omega) (by omega)
+    generalize subSameLen W lhs rhs 0 = p at s1 s2 s3 s4
+    obtain ⟨l1, c⟩ := p
+    simp only at s1 s2 s3 s4 ⊢
+    rw [hll, Nat.add_zero] at s1
+    obtain ⟨out, ho, h1, _, hv⟩ := condAddL_spec (u := val W lhs) (t := val W rhs) hnd s3 (by omega) s4 (by omega) s1
+    exact ⟨out, ho, h1, hv⟩
+  · obtain ⟨out, ho, h1, _, hv⟩ := negateInPlaceL_spec hnd hl (by omega) (by omega)
+    exact ⟨out, ho, by omega, hv⟩
+
+/-- non-vacuity: a 3-word ring with shift 3; a sum that wraps past the modulus with a carry out of the top word
+    (`overflow = true`), a sum below it, a difference with borrow, the swapped form, negation of a residue whose low
+    word is zero, doubling — the buffer computations succeed and give the residues -/
+example : ∃ r, Ring.new 64 0 (2 ^ 188 + 12345) = .ok r ∧ r.kind = .large ∧ r.k = 3 ∧
+    addInPlaceL 64 (r.ndWords 64) (r.rawWords 64 ((2 ^ 188 + 12344) * 2 ^ 3)) (r.rawWords 64 ((2 ^ 188 + 12000) * 2 ^ 3))
+      = .ok (natWords 64 ((2 ^ 188 + 11999) * 2 ^ 3)) ∧
+    addRawKL 64 r (5 * 2 ^ 3) (9 * 2 ^ 3) = 14 * 2 ^ 3 ∧
+    subRawKL 64 r (5 * 2 ^ 3) (9 * 2 ^ 3) = (2 ^ 188 + 12341) * 2 ^ 3 ∧
+    subSwapRawKL 64 r (2 ^ 100 * 2 ^ 3) (2 ^ 64 * 2 ^ 3) = (2 ^ 100 - 2 ^ 64) * 2 ^ 3 ∧
+    negRawKL 64 r (2 ^ 125 * 2 ^ 3) = (2 ^ 188 + 12345 - 2 ^ 125) * 2 ^ 3 ∧
+    dblRawKL 64 r ((2 ^ 188) * 2 ^ 3) = (2 ^ 188 - 12345) * 2 ^ 3 :=
+  ⟨_, rfl, rfl, by decide, by decide +kernel, by decide +kernel, by decide +kernel, by decide +kernel, by decide +kernel,
+    by decide +kernel⟩
 
 -- ================================================================== num-modular's `invm` at the machine level
 
